@@ -266,6 +266,7 @@ fn part_tasks(report: &Report, tier: Tier) {
         (json!({"tool": "bash", "args": {"command": "exit 3"}}), "exit3"),
         (json!({"tool": "bash", "args": {"command": "printf 'a\\303\\251b\\n'"}}), "stdout_utf8"),
         (json!({"tool": "bash", "args": {"command": "printf 'err' >&2"}}), "stderr_only"),
+        (json!({"tool": "bash", "args": {"command": "printf 'a\\360\\237\\231\\202b h\\303\\251llo \\342\\234\\223 \\346\\227\\245\\346\\234\\254 done'"}}), "stdout_wide_chars"),
         (json!({"tool": "bash", "args": {"command": "printf out; printf err >&2; printf '\\377x'"}}), "both_binary"),
         (json!({"tool": "bash", "args": {"command": "head -c 20000 /dev/zero | tr '\\0' 'z'"}}), "20KiB"),
         (json!({"tool": "bash", "args": {"command": "head -c 20000 /dev/zero | tr '\\0' 'z'", "artifact_max_bytes": 5000}}), "20KiB_cap5000"),
@@ -282,6 +283,7 @@ fn part_tasks(report: &Report, tier: Tier) {
     ];
     let expected_stdout: std::collections::HashMap<&str, Vec<u8>> = [
         ("stdout_utf8", "aéb\n".as_bytes().to_vec()),
+        ("stdout_wide_chars", "a\u{1F642}b h\u{e9}llo \u{2713} \u{65e5}\u{672c} done".as_bytes().to_vec()),
         ("both_binary", b"out\xffx".to_vec()),
         ("20KiB", vec![b'z'; 20000]),
         ("20KiB_cap5000", vec![b'z'; 5000]),
@@ -381,6 +383,41 @@ fn part_tasks(report: &Report, tier: Tier) {
                 let stored = std::fs::read(app.root.join(".rip/artifacts/blobs").join(art)).unwrap_or_default();
                 if &stored != want {
                     report.violation("C17:task_stored_output", case(), &format!("stored stdout holds {} bytes, expected {} (prefix up to the cap)", stored.len(), want.len()));
+                }
+                // reading the stored output page by page through the task route, following the byte
+                // counts it returns, reproduces it exactly - for every page size from 1 byte up
+                if want.len() <= 64 {
+                    for page in 1..=6usize {
+                        let mut acc: Vec<u8> = Vec::new();
+                        let mut offset = 0u64;
+                        let mut stuck = false;
+                        for _ in 0..(want.len() + 2) {
+                            let (_, b) = app.request("GET", &format!("/tasks/{id}/output?stream=stdout&offset_bytes={offset}&max_bytes={page}"), None);
+                            let v: Value = serde_json::from_slice(&b).unwrap_or(Value::Null);
+                            let used = v["bytes"].as_u64().unwrap_or(0);
+                            acc.extend_from_slice(v["content"].as_str().unwrap_or("").as_bytes());
+                            if used == 0 {
+                                stuck = (offset as usize) < want.len();
+                                break;
+                            }
+                            offset += used;
+                        }
+                        report.count("task_output_page_walks", 1);
+                        let lossy = String::from_utf8_lossy(want).to_string();
+                        // a page narrower than a character cannot carry it as text: for such pages only
+                        // progress and the byte count are judged (as for artifact_fetch in part 2)
+                        let widest = lossy.chars().map(|c| c.len_utf8()).max().unwrap_or(1);
+                        let content_wrong = page >= widest && acc != lossy.as_bytes() && acc != *want;
+                        let count_wrong = !stuck && offset as usize != want.len();
+                        if stuck || content_wrong || count_wrong {
+                            report.violation(
+                                "C17:task_output_paging",
+                                json!({"engine": "P", "harness": "c17.tasks", "command": label, "cancel": cancel, "page_size": page}),
+                                &format!("reading the stored stdout ({} bytes) through /tasks/{{id}}/output in pages of {page} byte(s): {} after {} bytes; got {:?}", want.len(), if stuck { "a page with 0 bytes although more follows" } else { "the pages do not add up to the stored output" }, offset, String::from_utf8_lossy(&acc)),
+                            );
+                            break;
+                        }
+                    }
                 }
                 // output deltas reference consecutive, non-overlapping ranges
                 let mut next = 0u64;
